@@ -39,6 +39,9 @@ enum AMut {
     SwapNodes { i: u16, j: u16 },
     /// verify under the key of another registration (root altered)
     OtherRoot,
+    /// entry i twice (second copy: same key and sigma, stake+1, an unused lottery index), its stated position twice,
+    /// every path value doubled in place — each copy climbs to the root on its own
+    DoubledPath { i: u16 },
 }
 
 #[derive(Clone, Debug, Serialize, Deserialize)]
@@ -222,6 +225,24 @@ fn a_case(c: &ACase) -> Report {
                 other_root = true;
                 true
             }
+            AMut::DoubledPath { i } => {
+                let p = e(*i, entries);
+                let mut copy = view["signatures"][p].clone();
+                let cur = copy[1][1].as_u64().unwrap_or(0);
+                copy[1][1] = Value::from(cur + 1);
+                // an index nobody uses (m = n + 2, the selection uses 0..|S|)
+                copy[0]["indexes"] = json!([c.n as u64 + 1]);
+                view["signatures"].as_array_mut().unwrap().insert(p + 1, copy);
+                let bi = view["batch_proof"]["indices"].as_array_mut().unwrap();
+                if p < bi.len() {
+                    let x = bi[p].clone();
+                    bi.insert(p + 1, x);
+                }
+                let vals = view["batch_proof"]["values"].as_array_mut().unwrap();
+                let doubled: Vec<Value> = vals.iter().flat_map(|v| [v.clone(), v.clone()]).collect();
+                *vals = doubled;
+                true
+            }
         };
         if ok {
             applied.push(format!("{m:?}").split([' ', '{']).next().unwrap_or("").to_string());
@@ -293,6 +314,7 @@ fn a_systematic(n: usize, seed: u64, subset: u64) -> Vec<ACase> {
         out.push(ACase { n, seed, subset, muts: vec![AMut::Outsider { i: ri, seed: 5 }] });
         out.push(ACase { n, seed, subset, muts: vec![AMut::StakePlus { i: ri }] });
         out.push(ACase { n, seed, subset, muts: vec![AMut::DupIndex { i: ri }] });
+        out.push(ACase { n, seed, subset, muts: vec![AMut::DoubledPath { i: ri }] });
         if i + 1 < sel {
             out.push(ACase { n, seed, subset, muts: vec![AMut::SwapIndices { i: ri, j: step(sel, i + 1) }] });
         }
@@ -323,6 +345,7 @@ fn a_mut_strategy() -> impl Strategy<Value = AMut> {
         r.prop_map(|i| AMut::DupNode { i }),
         (r, r).prop_map(|(i, j)| AMut::SwapNodes { i, j }),
         Just(AMut::OtherRoot),
+        r.prop_map(|i| AMut::DoubledPath { i }),
     ]
 }
 
